@@ -279,3 +279,233 @@ pub fn gen_flow(rng: &mut Rng, o: &BenchOpts) -> Case {
     case.profile = "flow".into();
     case
 }
+
+// ------------------------------------------------------------------------
+// Time / scheduling profiles.
+// ------------------------------------------------------------------------
+
+#[derive(Clone, Debug)]
+pub struct TimeOpts {
+    pub max_nodes: usize,
+    pub max_cmds: usize,
+    /// Probability (percent) of invalid requests (past/now deadline, zero period).
+    pub invalid_pct: u64,
+    pub cancel_pct: u64,
+    pub periodic_pct: u64,
+    pub keyed_pct: u64,
+    /// Same-deadline bursts.
+    pub burst_pct: u64,
+    pub model_sched: bool,
+    pub via_action_pct: u64,
+    /// Fault X: auxiliary scheduler threads.
+    pub aux_threads: usize,
+    pub st_only: bool,
+    pub mt_only: bool,
+    pub clock_lag_pct: u64,
+    pub zero_period_action: bool,
+}
+
+impl Default for TimeOpts {
+    fn default() -> Self {
+        Self {
+            max_nodes: 3,
+            max_cmds: 10,
+            invalid_pct: 5,
+            cancel_pct: 15,
+            periodic_pct: 25,
+            keyed_pct: 35,
+            burst_pct: 30,
+            model_sched: true,
+            via_action_pct: 15,
+            aux_threads: 0,
+            st_only: false,
+            mt_only: false,
+            clock_lag_pct: 0,
+            zero_period_action: false,
+        }
+    }
+}
+
+const UNITS: &[u64] = &[1, 1, 3, 1_000, 999_999_937, 1_000_000_000, 1_000_000_007, 3_600_000_000_000];
+
+fn gen_mode(rng: &mut Rng, o: &TimeOpts, unit: u64, slots: u8) -> Mode {
+    let periodic = rng.pct(o.periodic_pct);
+    let keyed = rng.pct(o.keyed_pct);
+    let period = if rng.pct(o.invalid_pct) { 0 } else { unit * rng.range(1, 4) };
+    match (periodic, keyed) {
+        (false, false) => Mode::Plain,
+        (false, true) => Mode::Keyed(rng.below(slots as u64) as u8),
+        (true, false) => Mode::Periodic(period),
+        (true, true) => Mode::KeyedPeriodic(rng.below(slots as u64) as u8, period),
+    }
+}
+
+fn gen_when(rng: &mut Rng, o: &TimeOpts, unit: u64, now_units: u64, burst_at: Option<u64>) -> When {
+    if rng.pct(o.invalid_pct) {
+        return match rng.below(3) {
+            0 => When::Rel(0),
+            1 => When::Past(unit * rng.range(0, 3)),
+            _ => When::Abs(unit * rng.below(now_units + 1)),
+        };
+    }
+    if let Some(b) = burst_at {
+        if rng.pct(70) {
+            return When::Abs(unit * b);
+        }
+    }
+    if rng.pct(50) {
+        When::Rel(unit * rng.range(1, 6))
+    } else {
+        When::Abs(unit * (now_units + rng.range(1, 6)))
+    }
+}
+
+/// Generates a scheduling-centred case. All delays, periods and step ranges
+/// are small multiples of one time unit drawn per case (1 ns ... 1 h), so the
+/// number of occurrences within the horizon stays small whatever the scale.
+pub fn gen_time(rng: &mut Rng, o: &TimeOpts) -> Case {
+    let bo = BenchOpts {
+        min_nodes: 1,
+        max_nodes: o.max_nodes,
+        st_only: o.st_only,
+        mt_only: o.mt_only,
+        queries: false,
+        sinks: false,
+        sources: true,
+        init_ops: false,
+        max_ops: 2,
+        max_kinds: 3,
+        caps: vec![1, 2, 4, 16],
+        ..Default::default()
+    };
+    let mut case = gen_bench(rng, &bo);
+    // Event sources for `Via::Action` need at least one source without filters to keep firing observable.
+    if case.sources.iter().all(|s| s.query) {
+        let t = rng.usize(case.nodes.len()) as u16;
+        case.sources.push(SourceSpec { edges: vec![Edge { cid: 90_000, target: Target::Node(t), map: rng.pct(50), filter: None }], query: false });
+    }
+    let unit = *rng.pick(UNITS);
+    let n = case.nodes.len();
+    let kinds = case.nodes[0].on.len().max(1) as u64;
+    let slots: u8 = 3;
+
+    // Model-side scheduling and cancelling.
+    if o.model_sched {
+        for i in 0..n {
+            for k in 0..case.nodes[i].on.len() {
+                if rng.pct(40) {
+                    let cnt = if rng.pct(o.burst_pct) { rng.range(2, 4) } else { 1 };
+                    let same = When::Rel(unit * rng.range(1, 4));
+                    for _ in 0..cnt {
+                        let when = if rng.pct(60) { same } else { gen_when(rng, o, unit, 0, None) };
+                        // Absolute deadlines from models are relative to t0 and may lie in the past: fine (rejected).
+                        let mode = gen_mode(rng, o, unit, slots);
+                        let pos = rng.usize(case.nodes[i].on[k].len() + 1);
+                        case.nodes[i].on[k].insert(pos, Op::Sched { kind: rng.below(kinds) as u8, when, mode });
+                    }
+                }
+                if rng.pct(o.cancel_pct) {
+                    let pos = rng.usize(case.nodes[i].on[k].len() + 1);
+                    case.nodes[i].on[k].insert(pos, Op::Cancel { slot: rng.below(slots as u64) as u8, how: rng.below(3) as u8 });
+                }
+                if rng.pct(15) {
+                    case.nodes[i].on[k].push(Op::ReadTime);
+                }
+            }
+            if rng.pct(25) {
+                let mode = gen_mode(rng, o, unit, slots);
+                case.nodes[i].init.push(Op::Sched { kind: rng.below(kinds) as u8, when: When::Rel(unit * rng.range(1, 5)), mode });
+            }
+        }
+    }
+
+    // Driver script.
+    let mut script = Vec::new();
+    let mut now_units: u64 = 0; // lower bound of the current time in units after t0
+    let n_cmds = rng.range(2, o.max_cmds as u64) as usize;
+    let mut burst_at: Option<u64> = None;
+    let esources: Vec<u16> = case.sources.iter().enumerate().filter(|(_, s)| !s.query).map(|(i, _)| i as u16).collect();
+    for ci in 0..n_cmds {
+        let r = rng.below(100);
+        if r < 45 {
+            if burst_at.is_none() && rng.pct(o.burst_pct) {
+                burst_at = Some(now_units + rng.range(1, 5));
+            }
+            let via = if !esources.is_empty() && rng.pct(o.via_action_pct) { Via::Action(*rng.pick(&esources)) } else { Via::Direct };
+            let mut mode = gen_mode(rng, o, unit, slots);
+            if !o.zero_period_action {
+                // A zero-period action is only generated when explicitly enabled.
+                if let (Via::Action(_), Mode::Periodic(0)) | (Via::Action(_), Mode::KeyedPeriodic(_, 0)) = (via, mode) {
+                    mode = Mode::Plain;
+                }
+            }
+            script.push(Cmd::Sched { target: rng.usize(n) as u16, kind: rng.below(kinds) as u8, when: gen_when(rng, o, unit, now_units, burst_at), mode, via });
+        } else if r < 60 {
+            script.push(Cmd::Step);
+            now_units += 0; // unknown advance; Abs deadlines below `now` are simply rejected
+            burst_at = None;
+        } else if r < 80 {
+            let adv = rng.range(0, 6);
+            let when = if rng.pct(o.invalid_pct) {
+                When::Past(unit * rng.range(1, 3))
+            } else if rng.pct(50) {
+                When::Rel(unit * adv)
+            } else {
+                When::Abs(unit * (now_units + adv))
+            };
+            if matches!(when, When::Abs(_) | When::Rel(_)) {
+                now_units += adv;
+            }
+            script.push(Cmd::StepUntil { when });
+            burst_at = None;
+        } else if r < 80 + o.cancel_pct {
+            script.push(Cmd::Cancel { slot: rng.below(slots as u64) as u8, how: rng.below(3) as u8 });
+        } else if r < 97 {
+            script.push(Cmd::ProcessEvent { target: rng.usize(n) as u16, kind: rng.below(kinds) as u8 });
+        } else if o.aux_threads > 0 && case.aux.len() < o.aux_threads {
+            script.push(Cmd::SpawnAux { aux: case.aux.len() as u16 });
+            let len = rng.range(1, 4) as usize;
+            let mut a = Vec::new();
+            for _ in 0..len {
+                let x = rng.below(100);
+                if x < 65 {
+                    a.push(AuxCmd::Sched { target: rng.usize(n) as u16, kind: rng.below(kinds) as u8, when: gen_when(rng, o, unit, now_units, burst_at), mode: gen_mode(rng, o, unit, slots) });
+                } else if x < 85 {
+                    a.push(AuxCmd::ReadTime);
+                } else {
+                    a.push(AuxCmd::Cancel { slot: rng.below(slots as u64) as u8, how: rng.below(3) as u8 });
+                }
+            }
+            case.aux.push(a);
+        } else {
+            script.push(Cmd::Step);
+        }
+        let _ = ci;
+    }
+    // Make sure time moves at the end so that pending actions get a chance to fire.
+    script.push(Cmd::StepUntil { when: When::Rel(unit * rng.range(1, 8)) });
+    // With auxiliary threads enabled, make sure at least one exists and races with stepping.
+    if o.aux_threads > 0 && case.aux.is_empty() {
+        let pos = rng.usize(script.len());
+        let mut a = Vec::new();
+        for _ in 0..rng.range(1, 4) {
+            a.push(AuxCmd::Sched { target: rng.usize(n) as u16, kind: rng.below(kinds) as u8, when: gen_when(rng, o, unit, 0, None), mode: gen_mode(rng, o, unit, slots) });
+        }
+        case.aux.push(a);
+        script.insert(pos, Cmd::SpawnAux { aux: 0 });
+    }
+    // Scripted clock.
+    if o.clock_lag_pct > 0 {
+        let calls = 24;
+        case.cfg.clock = (0..calls).map(|_| if rng.pct(o.clock_lag_pct) { Some(unit.min(1_000_000) * rng.range(1, 9)) } else { None }).collect();
+        case.cfg.tolerance = match rng.below(4) {
+            0 => None,
+            1 => Some(0),
+            2 => Some(unit.min(1_000_000) * rng.range(1, 9)),
+            _ => Some(u64::MAX / 4),
+        };
+    }
+    case.script = script;
+    case.profile = "time".into();
+    case
+}
